@@ -110,6 +110,11 @@ type Analyzer struct {
 	OnInlined func(fn *ssa.Function, args []Term, val Term, st *State)
 	// OnWrite observes binary.PutUintN writes (layout extraction of encoders).
 	OnWrite func(st *State, dst *Slice, width int64, val Term)
+	// OpaquePure: pure repo helpers that are not inlined; their result is kept as helper(arg0) with the
+	// declared length (>= 0: constant; -2: the second argument; -1: unknown).
+	OpaquePure map[string]int64
+	// LogWrites: record writes into byte buffers in State.Log (encoder layout extraction).
+	LogWrites bool
 	// AtomNames / BaseNames: symbolic names of entry values (NameFields).
 	AtomNames map[*Atom]string
 	BaseNames map[*Base]string
